@@ -79,6 +79,9 @@ type Scenario struct {
 	// missing metric exists elsewhere); they answer slowly, so the fallback time limit can strike
 	OtherServers int        `json:"other_servers,omitempty"`
 	OtherDelayS  int64      `json:"other_delay_s,omitempty"`
+	// SlowMainS: every answer of the server under test takes this long (its timeout is then 15m): slow but
+	// healthy - an answer may be minutes old by the time it is stored, it is still the answer of that moment
+	SlowMainS int64 `json:"slow_main_s,omitempty"`
 	FaultKind    string     `json:"fault_kind"` // "none", "failover" (primary unavailable, replica healthy), "chaos", "outage"
 	Plan         [][]string `json:"plan,omitempty"`
 	Rest         []string   `json:"rest,omitempty"`
@@ -257,6 +260,7 @@ func draw(rt *rapid.T) Scenario {
 		sc.OtherServers = rapid.IntRange(1, 2).Draw(rt, "nothers")
 		sc.OtherDelayS = rapid.Int64Range(20, 260).Draw(rt, "otherDelay")
 	}
+	slowMain := sc.OtherServers == 0 && rapid.IntRange(0, 5).Draw(rt, "slowmain") == 0
 	sc.Replica = rapid.Bool().Draw(rt, "replica")
 	switch k := rapid.IntRange(0, 9).Draw(rt, "faultkind"); {
 	case k < 5:
@@ -267,6 +271,16 @@ func draw(rt *rapid.T) Scenario {
 		sc.FaultKind = "chaos"
 	default:
 		sc.FaultKind = "outage"
+	}
+	if slowMain && sc.FaultKind == "none" {
+		sc.SlowMainS = rapid.Int64Range(305, 420).Draw(rt, "slowMainS")
+		// keep a round within days of simulated time: few slices, several at once
+		if sc.LookbackH > 12 {
+			sc.LookbackH = 12
+		}
+		if sc.Concurrency < 4 {
+			sc.Concurrency = 4
+		}
 	}
 	unavailable := []string{simprom.ModeRefused, simprom.ModeStall, simprom.ModeHTTP500, simprom.ModeHTTP503, simprom.ModeJSONServerErr, simprom.ModeReset, simprom.ModeDialBlackHole}
 	anyMode := append([]string{simprom.ModeTruncated, simprom.ModeTruncClean, simprom.ModeJSONCanceled, simprom.ModeGarbage, simprom.ModeBadData, simprom.ModeExecution, simprom.ModeNotFound, simprom.ModeJSONInternal, simprom.ModeWrongType}, unavailable...)
@@ -463,6 +477,10 @@ type ruleResult struct {
 }
 
 func run(t *testing.T, sc Scenario, record bool) *detsim.Outcome {
+	roundBudget := 48 * time.Hour
+	if sc.SlowMainS > 0 {
+		roundBudget = 30 * 24 * time.Hour // every request takes minutes
+	}
 	out := &detsim.Outcome{Probes: map[string]int{}, Faults: map[string]int{}}
 	var mu sync.Mutex
 	setViol := func(class, detail string) {
@@ -514,7 +532,11 @@ func run(t *testing.T, sc Scenario, record bool) *detsim.Outcome {
 				if mode == simprom.ModeWrongType && req.Endpoint != promapi.APIPathQuery && req.Endpoint != promapi.APIPathQueryRange {
 					mode = simprom.ModeGarbage
 				}
-				return simprom.Fault{Mode: mode}
+				f := simprom.Fault{Mode: mode}
+				if sc.SlowMainS > 0 {
+					f.DelayNs = sc.SlowMainS*int64(time.Second) + int64(req.ID)
+				}
+				return f
 			}
 			idx := i
 			srv.StartCtx(nw, nil, func(k int, _ any) (simnet.DialAction, any) {
@@ -540,7 +562,11 @@ func run(t *testing.T, sc Scenario, record bool) *detsim.Outcome {
 				return simnet.DialOK, connTag{mode: mode}
 			})
 			servers = append(servers, srv)
-			proms = append(proms, promapi.NewPrometheus("sim", "http://"+host, "http://sim.example.com", nil, 5*time.Second, sc.Concurrency, 2000000000, nil))
+			timeout := 5 * time.Second
+			if sc.SlowMainS > 0 {
+				timeout = 15 * time.Minute
+			}
+			proms = append(proms, promapi.NewPrometheus("sim", "http://"+host, "http://sim.example.com", nil, timeout, sc.Concurrency, 2000000000, nil))
 		}
 		fg := promapi.NewFailoverGroup("sim", "http://sim.example.com", proms, false, "up", nil, nil, nil)
 		reg := prometheus.NewRegistry()
@@ -657,7 +683,7 @@ func run(t *testing.T, sc Scenario, record bool) *detsim.Outcome {
 			go func() { wg.Wait(); close(done) }()
 			select {
 			case <-done:
-			case <-time.After(48 * time.Hour):
+			case <-time.After(roundBudget):
 				live = false
 			}
 		}
@@ -677,7 +703,7 @@ func run(t *testing.T, sc Scenario, record bool) *detsim.Outcome {
 		out.Faults[k] += v
 	}
 	if !live {
-		setViol("liveness", fmt.Sprintf("checks did not finish within 48h of simulated time (leak: %s)", leak))
+		setViol("liveness", fmt.Sprintf("checks did not finish within %s of simulated time per round (leak: %s)", roundBudget, leak))
 		return out
 	}
 	if leak != "" {
